@@ -19,6 +19,8 @@ for k in range(n):
 res = eng_run.run_histories(exe, hs, pens, eng_impl.Impl)
 print('histories', res.histories, 'lines', res.lines, 'ops', res.ops, 'exact', res.exact_vals, 'inexact', res.inexact_vals, 'zerodiv', res.zero_div)
 print('exn', res.exn_hist)
+print('msgs', res.msg_hist, 'nontrivial', len(res.nontrivial))
+print('ops', res.op_hist)
 print('internal', len(res.internal), 'disagreements', len(res.disagreements))
 for d in res.internal[:5]:
     print('INTERNAL', d)
